@@ -287,6 +287,9 @@ let () =
                   | _ -> ());
                  (match mo with BSent _ | BRecv (Some _) | BLoaned _ -> cur_nontrivial := true | _ -> ());
                  (* the conservation invariant of C02 (and the bounds C08 counts with), evaluated on the model state *)
+                 if not (inv_topology_b w1) && not !inv_bad then begin
+                   incr mm_spec; inv_bad := true;
+                   report "spectopo" (Printf.sprintf "MISMATCH case=%d op=%d kind=spec prop=C02 key=pubsub:topology-invariant line=[%s] spec=inv_topology_b impl=violated-in-model-state\n" !case_no !op_no line) end;
                  if not (inv_check w1) && not !inv_bad then begin
                    incr mm_spec; inv_bad := true;
                    report "specinv" (Printf.sprintf "MISMATCH case=%d op=%d kind=spec prop=C02 key=pubsub:conservation-invariant line=[%s] spec=inv_check impl=violated-in-model-state\n" !case_no !op_no line) end;
